@@ -106,14 +106,20 @@ impl ClientVisibility {
 
     /// Removes a despawned entity tracked by this client.
     pub(super) fn remove_despawned(&mut self, entity: Entity) {
-        let removed = match &mut self.list {
-            VisibilityList::Blacklist(list) => list.remove(&entity).is_some(),
-            VisibilityList::Whitelist(list) => list.remove(&entity).is_some(),
-        };
-
-        if removed {
-            self.added.remove(&entity);
-            self.removed.remove(&entity);
+        match &mut self.list {
+            VisibilityList::Blacklist(list) => {
+                if list.remove(&entity).is_some() {
+                    // Keep the entity in `added` if it was hidden during this tick:
+                    // the client still has it and will be notified via `Self::drain_lost`.
+                    self.removed.remove(&entity);
+                }
+            }
+            VisibilityList::Whitelist(list) => {
+                if list.remove(&entity).is_some() {
+                    self.added.remove(&entity);
+                    self.removed.remove(&entity);
+                }
+            }
         }
     }
 
